@@ -52,6 +52,27 @@ def run(ctx):
             coll.append(('A', ('or', wrap(twin), wrap(sub))))
     trees = trees + coll
     cases = []
+    # deep guards: an otherwise in-logic formula of depth 3-5 with ONE offending subformula placed at a random leaf
+    # (a quantified formula inside an LTL path formula; a bare path operator under a CTL connective)
+    import gen
+    def plant(f, sub, r):
+        if f[0] in ('ap', 'true', 'false'):
+            return sub
+        i = r.randrange(1, len(f))
+        return f[:i] + (plant(f[i], sub, r),) + f[i + 1:]
+    deep = []
+    for _ in range(500 if q else 8000):
+        d = rnd.choice([2, 3, 4])
+        g = gen.rand_path(rnd, d, leaves=[('ap', 'p'), ('ap', 'q_1')], nary=False)
+        bad = rnd.choice([('E', ('X', ('ap', 'p'))), ('A', ('G', ('ap', 'p'))), ('not', ('E', ('F', ('ap', 'q_1')))), ('E', ('ap', 'p'))])
+        f = ('A', plant(g, bad, rnd))
+        if gen.temporal_count(f) <= 5:
+            deep.append({'op': 'mcguard', 'logic': 'LTL', 'f': f, 'kripke': True, 'built_in': 'CTLS'})
+        h = gen.rand_ctl(rnd, d, leaves=[('ap', 'p'), ('ap', 'q_1')], nary=False)
+        badp = rnd.choice([('X', ('ap', 'p')), ('G', ('ap', 'q_1')), ('U', ('ap', 'p'), ('ap', 'q_1')), ('F', ('not', ('ap', 'p')))])
+        f2 = plant(h, badp, rnd)
+        deep.append({'op': 'mcguard', 'logic': 'CTL', 'f': f2, 'kripke': True, 'built_in': 'CTLS'})
+        deep.append({'op': 'construct', 'lang': 'LTL', 'sub_lang': 'CTLS', 'f': f}) if f[1][0] not in ('ap', 'true', 'false') else None
     for f in trees:
         for lg in LANGN:
             cases.append({'op': 'construct', 'lang': lg, 'f': f, 'style': 'obj'})
@@ -73,6 +94,7 @@ def run(ctx):
                 cases.append({'op': 'mcguard', 'logic': lg, 'f': f, 'kripke': True, 'mode': 'text'})
             if rnd.random() < 0.1:
                 cases.append({'op': 'mcguard', 'logic': lg, 'f': f, 'kripke': False, 'notk': rnd.choice(['DiGraph', 'None'])})
+    cases += [c for c in deep if c]
     keep = synfam.run_events(ctx, cases)
     counts = {}
     for c, ev in keep:
